@@ -103,6 +103,7 @@ def edge_matrix(rng=None, extra=40):
     for h in F32_SPECIAL:
         m.append(("f32", h))
     m += [("str", "-"), ("str", "61"), ("str", "ff"), ("str", "0100000000000000"), ("str", "ffffffffffffffff"), ("str", "61" * 16), ("str", "62" * 17)]
+    m += [("str", "63" * n) for n in (31, 32, 33, 63, 64, 65, 96, 128)] + [("raw", "0a" * n) for n in (31, 32, 33, 64, 96)]      # hash block sizes
     m += [("raw", "-"), ("raw", "00"), ("raw", "0100000000000000"), ("raw", "ffffffff"), ("raw", "ffffffffffffffff"), ("raw", "07" * 16), ("raw", "09" * 33)]
     if rng is not None:
         m += [rand_input(rng, rng.choice([10, 1000, 10**9])) for _ in range(extra)]
